@@ -560,7 +560,22 @@ impl Compiler {
             } else {
                 let options = self.builder.regex.select(exclude_names);
                 let not_taken = self.builder.regex.not(options);
-                self.builder.regex.and(vec![regex, not_taken])
+                let regex = self.builder.regex.and(vec![regex, not_taken]);
+                // The pattern may match nothing but names that "properties" already declares;
+                // then no key is left for it and a key lexeme with an empty language
+                // would be a dead end after the ','.
+                if let Ok(mut rx) = self
+                    .builder
+                    .regex
+                    .spec
+                    .regex_builder
+                    .to_regex_limited(regex, 10_000)
+                {
+                    if rx.always_empty() {
+                        continue;
+                    }
+                }
+                regex
             };
 
             let name = self.builder.lexeme(regex);
